@@ -63,11 +63,15 @@ type Style struct {
 	ExtraNS    bool // declare xs and xsi on the root
 	EmptyTag   bool // <a/> instead of <a></a>
 	DeclareDS  bool // declare xmlns:ds on the root; signatures made for this layout carry no declaration of their own
+	OddPrefix  bool // unconventional prefix names (ns1 / a / p3 ...) instead of saml / samlp
+	TagSpace   bool // line breaks and extra blanks between attributes inside tags
+	Around     bool // comments / processing instructions / white space before and after the root element
+	Redeclare  bool // children redundantly re-declare namespaces already in scope
 	Rng        *rand.Rand
 }
 
 func (s Style) String() string {
-	return fmt.Sprintf("pfx%d/pretty%d/q%c/shuf%v/decl%d/com%v/txt%d/xns%v/empty%v/dsroot%v", s.Prefix, s.Pretty, s.Quote, s.Shuffle, s.Decl, s.Comments, s.TextTricks, s.ExtraNS, s.EmptyTag, s.DeclareDS)
+	return fmt.Sprintf("pfx%d/pretty%d/q%c/shuf%v/decl%d/com%v/txt%d/xns%v/empty%v/dsroot%v/odd%v/tagsp%v/around%v/redecl%v", s.Prefix, s.Pretty, s.Quote, s.Shuffle, s.Decl, s.Comments, s.TextTricks, s.ExtraNS, s.EmptyTag, s.DeclareDS, s.OddPrefix, s.TagSpace, s.Around, s.Redeclare)
 }
 
 // PlainStyle is the simplest layout.
@@ -76,7 +80,8 @@ func PlainStyle() Style { return Style{Quote: '"', EmptyTag: true} }
 // RandomStyle draws every knob.
 func RandomStyle(r *rand.Rand) Style {
 	s := Style{Prefix: r.IntN(4), Pretty: r.IntN(3), Quote: '"', Shuffle: r.IntN(2) == 0, Decl: r.IntN(4),
-		Comments: r.IntN(3) == 0, TextTricks: r.IntN(5), ExtraNS: r.IntN(2) == 0, EmptyTag: r.IntN(2) == 0, DeclareDS: r.IntN(4) == 0, Rng: r}
+		Comments: r.IntN(3) == 0, TextTricks: r.IntN(5), ExtraNS: r.IntN(2) == 0, EmptyTag: r.IntN(2) == 0, DeclareDS: r.IntN(4) == 0,
+		OddPrefix: r.IntN(5) == 0, TagSpace: r.IntN(4) == 0, Around: r.IntN(5) == 0, Redeclare: r.IntN(6) == 0, Rng: r}
 	if r.IntN(3) == 0 {
 		s.Quote = '\''
 	}
@@ -141,6 +146,14 @@ type renderer struct {
 }
 
 func (rd *renderer) elemPrefix(ns string) string {
+	if rd.st.OddPrefix && rd.st.Prefix != 2 {
+		switch ns {
+		case NSP:
+			return "ns1"
+		case NSA:
+			return "a"
+		}
+	}
 	switch ns {
 	case NSP:
 		switch rd.st.Prefix {
@@ -191,9 +204,15 @@ func Render(n *Node, st Style) *Rendered {
 	case 3:
 		rd.b.WriteString(`<?xml version='1.0' encoding='utf-8'?>`)
 	}
+	if st.Around {
+		rd.b.WriteString("\n<!-- before the root --><?app hint=\"x\"?>\n  ")
+	}
 	rd.elem(n, scope{}, 0, nil, true)
 	if st.Pretty > 0 {
 		rd.b.WriteString("\n")
+	}
+	if st.Around {
+		rd.b.WriteString("\n<!-- after the root -->\n<?app done?>\n")
 	}
 	return &Rendered{Text: rd.b.String(), Slots: rd.slots}
 }
@@ -280,13 +299,43 @@ func (rd *renderer) elem(n *Node, sc scope, depth int, path []int, isRoot bool) 
 	if rd.st.Shuffle && rd.st.Rng != nil {
 		rd.st.Rng.Shuffle(len(attrs), func(i, j int) { attrs[i], attrs[j] = attrs[j], attrs[i] })
 	}
+	if rd.st.Redeclare && !isRoot && rd.st.Rng != nil && rd.st.Rng.IntN(4) == 0 {
+		// a redundant re-declaration of a namespace that is already in scope with the same binding
+		for pfx, uri := range sc {
+			dup := false
+			for _, a := range attrs {
+				if a.name == "xmlns:"+pfx || (pfx == "" && a.name == "xmlns") {
+					dup = true
+				}
+			}
+			if !dup && uri != "" {
+				if pfx == "" {
+					attrs = append(attrs, ra{"xmlns", uri})
+				} else {
+					attrs = append(attrs, ra{"xmlns:" + pfx, uri})
+				}
+				break
+			}
+		}
+	}
 	for _, a := range attrs {
-		rd.b.WriteByte(' ')
+		if rd.st.TagSpace && rd.st.Rng != nil {
+			rd.b.WriteString([]string{" ", "\n   ", "  ", "\t", "\r\n "}[rd.st.Rng.IntN(5)])
+		} else {
+			rd.b.WriteByte(' ')
+		}
 		rd.b.WriteString(a.name)
-		rd.b.WriteByte('=')
+		if rd.st.TagSpace && rd.st.Rng != nil && rd.st.Rng.IntN(4) == 0 {
+			rd.b.WriteString(" = ")
+		} else {
+			rd.b.WriteByte('=')
+		}
 		rd.b.WriteByte(rd.st.Quote)
 		rd.attrVal(a.val)
 		rd.b.WriteByte(rd.st.Quote)
+	}
+	if rd.st.TagSpace && rd.st.Rng != nil && rd.st.Rng.IntN(3) == 0 {
+		rd.b.WriteString("\n")
 	}
 	var slot *Slot
 	if n.Signable {
